@@ -6,37 +6,43 @@
    every theorem quantifies over ALL histories (arbitrary length, arbitrary Z values on the data inputs) and all
    widths / depths / delays / moduli / reset values. *)
 From V Require Import Base.Bits Gen.Seq Model.SeqBlocks Spec.C09.
-From V Require Import Proofs.C09.Reg Proofs.C09.Counters Proofs.C09.ModCounter Proofs.C09.Delay Proofs.C09.Mem Proofs.C09.Shift Proofs.C09.SpecSanity.
+From V Require Import Proofs.C09.Reg Proofs.C09.Counters Proofs.C09.ModCounter Proofs.C09.Delay Proofs.C09.Mem Proofs.C09.Shift Proofs.C09.SpecSanity Proofs.C09.DualPort.
 
-(* ---- Reg: after every edge q is the state of the reference machine (reset = 1 > enable <> 0 > hold), for every
-   width, reset value (also negative / oversized: stored unmasked, shown masked) and optional-port configuration *)
-Theorem C09_reg_refines : forall w (he hr : bool) rv (h : list (Z * Z * Z)), 0 <= w -> h <> [] ->
-  cell_q (run (reg_m w he hr rv) (cell0 rv) h) = run (reg_spec w he hr rv) (reg_spec_init w rv) h.
+(* ---- Reg: from construction on and after every edge, q is the state of the reference machine (reset = 1 > enable <> 0 >
+   hold) started at reset_value mod 2^w, for every width, reset value (also negative / oversized: stored unmasked, shown
+   masked) and optional-port configuration.  h = [] is the power-up clause: before the first edge q = reset_value mod 2^w. *)
+Theorem C09_reg_refines : forall w (he hr : bool) rv (h : list (Z * Z * Z)), 0 <= w ->
+  cell_q (run (reg_m w he hr rv) (cell_init w rv) h) = run (reg_spec w he hr rv) (reg_spec_init w rv) h.
 Proof. exact reg_refines. Qed.
-(* the leaf attribute follows the reference machine from power-up on (also for the empty history) *)
+Theorem C09_reg_powerup : forall w rv, 0 <= w -> cell_q (cell_init w rv) = rv mod 2 ^ w.
+Proof. exact reg_powerup_q. Qed.
+(* the leaf attribute follows the reference machine as well *)
 Theorem C09_reg_value_refines : forall w (he hr : bool) rv (h : list (Z * Z * Z)), 0 <= w ->
-  cell_value (run (reg_m w he hr rv) (cell0 rv) h) mod 2 ^ w = run (reg_spec w he hr rv) (reg_spec_init w rv) h.
+  cell_value (run (reg_m w he hr rv) (cell_init w rv) h) mod 2 ^ w = run (reg_spec w he hr rv) (reg_spec_init w rv) h.
 Proof. exact reg_value_refines. Qed.
+(* all registers inside the structural blocks have reset_value 0; their power-up cell is the same for every width *)
+Theorem C09_cell_init_zero : forall w, cell_init w 0 = cell_zero.
+Proof. exact cell_init_zero. Qed.
 Example C09_reg_nonvacuous :
-  cell_q (run (reg_m 3 true true 13) (cell0 13) [(6, 0, 0); (6, 1, 0); (2, 0, 0); (1, 1, 1)]) = 5 /\
-  map (fun h => cell_q (run (reg_m 3 true true 13) (cell0 13) h)) [[]; [(6, 0, 0)]; [(6, 0, 0); (6, 1, 0)]] = [0; 5; 6].
+  cell_q (run (reg_m 3 true true 13) (cell_init 3 13) [(6, 0, 0); (6, 1, 0); (2, 0, 0); (1, 1, 1)]) = 5 /\
+  map (fun h => cell_q (run (reg_m 3 true true 13) (cell_init 3 13) h)) [[]; [(6, 0, 0)]; [(6, 0, 0); (6, 1, 0)]] = [5; 5; 6].
 Proof. vm_compute. auto. Qed.
 
 (* ---- TReg *)
 Theorem C09_treg_refines : forall wq (he hr : bool) (h : list (Z * Z * Z)), 1 <= wq ->
-  cell_q (run (treg_m wq he hr) (cell0 0) h) = run (treg_spec he hr) 0 h.
+  cell_q (run (treg_m wq he hr) cell_zero h) = run (treg_spec he hr) 0 h.
 Proof. exact treg_refines. Qed.
 Example C09_treg_nonvacuous :
-  map (fun h => cell_q (run (treg_m 1 true true) (cell0 0) h)) [[(1,1,0)]; [(1,1,0); (1,0,0)]; [(1,1,0); (0,1,0); (1,1,0)]; [(1,1,0); (1,1,1)]] = [1; 1; 0; 0].
+  map (fun h => cell_q (run (treg_m 1 true true) cell_zero h)) [[(1,1,0)]; [(1,1,0); (1,0,0)]; [(1,1,0); (0,1,0); (1,1,0)]; [(1,1,0); (1,1,1)]] = [1; 1; 0; 0].
 Proof. vm_compute. reflexivity. Qed.
 
 (* ---- Counter: q' = 0 | (q+1) mod 2^w | q *)
 Theorem C09_counter_refines : forall w (hi hr : bool) (h : list (Z * Z)), 1 <= w ->
-  cell_q (run (counter_m w hi hr) (cell0 0) h) = run (counter_spec w hi hr) 0 h.
+  cell_q (run (counter_m w hi hr) cell_zero h) = run (counter_spec w hi hr) 0 h.
 Proof. exact counter_refines. Qed.
 Example C09_counter_nonvacuous :
-  map (fun k => cell_q (run (counter_m 2 true true) (cell0 0) (repeat (0, 1) k ++ [(0, 0)]))) (seq 0 6) = [0; 1; 2; 3; 0; 1] /\
-  cell_q (run (counter_m 2 true true) (cell0 0) [(0, 1); (0, 1); (1, 1)]) = 0.
+  map (fun k => cell_q (run (counter_m 2 true true) cell_zero (repeat (0, 1) k ++ [(0, 0)]))) (seq 0 6) = [0; 1; 2; 3; 0; 1] /\
+  cell_q (run (counter_m 2 true true) cell_zero [(0, 1); (0, 1); (1, 1)]) = 0.
 Proof. vm_compute. auto. Qed.
 
 (* the reference counters in closed form when free-running: k mod 2^w, k mod m *)
@@ -47,25 +53,25 @@ Proof. exact modcounter_spec_free. Qed.
 
 (* ---- ModuloCounter: q follows the mod-m counter, q < m always, carry exactly in state m-1 *)
 Theorem C09_modulo_counter_refines : forall w m (h : list (Z * Z)), 1 <= w -> 1 <= m <= 2 ^ w ->
-  let c := run (modcounter_m w 1 m) (cell0 0) h in
+  let c := run (modcounter_m w 1 m) cell_zero h in
   let s := run (modcounter_spec m) 0 h in
   cell_q c = s /\ 0 <= s < m /\ modcounter_carry w 1 m c = modcounter_carry_spec m s.
 Proof. exact modcounter_refines. Qed.
 Example C09_modulo_counter_nonvacuous :
-  map (fun k => let c := run (modcounter_m 3 1 5) (cell0 0) (repeat (0, 1) k) in (cell_q c, modcounter_carry 3 1 5 c))
+  map (fun k => let c := run (modcounter_m 3 1 5) cell_zero (repeat (0, 1) k) in (cell_q c, modcounter_carry 3 1 5 c))
       [0; 1; 4; 5; 6]%nat = [(0, 0); (1, 0); (4, 1); (0, 0); (1, 0)].
 Proof. vm_compute. reflexivity. Qed.
 (* the guard m <= 2^w cannot be dropped: the comparator sees (m-1) mod 2^w *)
 Theorem C09_modulo_counter_guard_needed :
-  cell_q (run (modcounter_m 2 1 6) (cell0 0) [(0, 1); (0, 1)]) <> run (modcounter_spec 6) 0 [(0, 1); (0, 1)].
+  cell_q (run (modcounter_m 2 1 6) cell_zero [(0, 1); (0, 1)]) <> run (modcounter_spec 6) 0 [(0, 1); (0, 1)].
 Proof. exact modcounter_guard_needed. Qed.
 
 (* ---- StepUpCounter *)
 Theorem C09_stepup_refines : forall w (hr : bool) (h : list (Z * Z * Z)), 1 <= w ->
-  cell_q (run (stepup_m w hr) (cell0 0) h) = run (stepup_spec w hr) 0 h.
+  cell_q (run (stepup_m w hr) cell_zero h) = run (stepup_spec w hr) 0 h.
 Proof. exact stepup_refines. Qed.
 Example C09_stepup_nonvacuous :
-  cell_q (run (stepup_m 3 true) (cell0 0) [(0, 1, 3); (0, 1, 3); (0, 0, 3); (0, 1, 3)]) = 1.
+  cell_q (run (stepup_m 3 true) cell_zero [(0, 1, 3); (0, 1, 3); (0, 0, 3); (0, 1, 3)]) = 1.
 Proof. vm_compute. reflexivity. Qed.
 
 (* ---- DelayLine: the output is the value sampled `delay` enabled edges ago (since the last reset), for EVERY delay *)
@@ -94,13 +100,13 @@ Proof. vm_compute. reflexivity. Qed.
 (* ---- EdgeDetector (1-bit): r compares the present input with the value sampled at the last edge *)
 Theorem C09_edge_detector_refines : forall dir (h : list Z) a_last a,
   Forall (fun x => x = 0 \/ x = 1) h -> (a_last = 0 \/ a_last = 1) -> (a = 0 \/ a = 1) ->
-  edge_out dir 1 (run edge_step (cell0 0) (h ++ [a_last])) a = edge_spec (dir_kind dir) a_last a.
+  edge_out dir 1 (run edge_step cell_zero (h ++ [a_last])) a = edge_spec (dir_kind dir) a_last a.
 Proof. exact edge_detector_refines. Qed.
 Theorem C09_edge_detector_powerup : forall dir a, (a = 0 \/ a = 1) ->
-  edge_out dir 1 (cell0 0) a = edge_spec (dir_kind dir) 0 a.
+  edge_out dir 1 cell_zero a = edge_spec (dir_kind dir) 0 a.
 Proof. exact edge_detector_powerup. Qed.
 Example C09_edge_detector_nonvacuous :
-  map (fun d => edge_out d 1 (run edge_step (cell0 0) ([1; 1] ++ [0])) 1) [Pos; Neg; Both] = [1; 0; 1].
+  map (fun d => edge_out d 1 (run edge_step cell_zero ([1; 1] ++ [0])) 1) [Pos; Neg; Both] = [1; 0; 1].
 Proof. vm_compute. reflexivity. Qed.
 
 (* ---- ClockDivider: clkout = (c / n) mod 2, c = edges since the last reset edge: period exactly 2n *)
@@ -176,6 +182,31 @@ Example C09_syncmem_nonvacuous :
   map (fun k => mem_out (run (mem_m 3) (mem_init 2) (firstn k [(1,1,1,9); (1,1,1,5); (1,2,0,7)]))) (seq 0 4) = [0; 0; 1; 5].
 Proof. split; [repeat (apply Forall_cons; [unfold addr_ok; lia|]); apply Forall_nil | vm_compute; reflexivity]. Qed.
 
+(* ---- DualPortSynchronousMemory (REGENERATED clock(): read a, read b, write a, write b): refinement to a total map for
+   every address-legal history.  Both read ports return the content before the edge's writes - also when port b reads the cell
+   port a writes at that edge (and vice versa); when both ports write the same cell at one edge, port b's data wins. *)
+Theorem C09_dualport_refines : forall aw wra wrb (h : list ((Z * Z * Z * Z) * (Z * Z * Z * Z))),
+  0 <= aw -> 0 <= wra -> 0 <= wrb -> Forall (dp_addr_ok aw) h ->
+  let s := run (dp_step wra wrb) (dp_init aw) h in
+  let t := run (dp_spec wra wrb) dp_spec_init h in
+  (forall a, 0 <= a < 2 ^ aw -> Seq.getZ (dp_data s) a = fst t a) /\
+  Z.of_nat (length (dp_data s)) = 2 ^ aw /\
+  dp_out_a s = fst (snd t) /\ dp_out_b s = snd (snd t).
+Proof. exact dualport_refines. Qed.
+Theorem C09_dualport_read_before_any_write : forall wra wrb s raa waa wa wda rab wab wb wdb,
+  let s' := dp_step wra wrb s ((raa, waa, wa, wda), (rab, wab, wb, wdb)) in
+  dp_out_a s' = trunc wra (Seq.getZ (dp_data s) raa) /\ dp_out_b s' = trunc wrb (Seq.getZ (dp_data s) rab).
+Proof. exact dualport_read_before_any_write. Qed.
+Theorem C09_dualport_b_wins : forall wra wrb s raa wa wda rab wab wdb wb,
+  wb <> 0 -> 0 <= wab < Z.of_nat (length (dp_data s)) ->
+  Seq.getZ (dp_data (dp_step wra wrb s ((raa, wab, wa, wda), (rab, wab, wb, wdb)))) wab = wdb.
+Proof. exact dualport_b_wins. Qed.
+Example C09_dualport_nonvacuous :
+  let h := [((0, 1, 1, 5), (1, 0, 0, 0)); ((1, 2, 1, 7), (2, 2, 1, 9)); ((2, 0, 0, 0), (1, 0, 0, 0))] in
+  Forall (dp_addr_ok 2) h /\
+  map (fun k => let s := run (dp_step 4 4) (dp_init 2) (firstn k h) in (dp_out_a s, dp_out_b s)) (seq 0 4) = [(0, 0); (0, 0); (5, 0); (9, 5)].
+Proof. split; [repeat (apply Forall_cons; [unfold dp_addr_ok; lia|]); apply Forall_nil | vm_compute; reflexivity]. Qed.
+
 (* ---- AutoReset: high after edges 1 and 2 only *)
 Theorem C09_autoreset_refines : forall w k, 0 <= w -> ar_out (iter k (ar_step w) ar_init) = autoreset_spec w k.
 Proof. exact autoreset_refines. Qed.
@@ -184,6 +215,8 @@ Proof. vm_compute. reflexivity. Qed.
 
 Print Assumptions C09_reg_refines.
 Print Assumptions C09_reg_value_refines.
+Print Assumptions C09_reg_powerup.
+Print Assumptions C09_cell_init_zero.
 Print Assumptions C09_treg_refines.
 Print Assumptions C09_counter_refines.
 Print Assumptions C09_modulo_counter_refines.
@@ -203,6 +236,9 @@ Print Assumptions C09_stack_refines.
 Print Assumptions C09_syncmem_refines.
 Print Assumptions C09_syncmem_read_before_write.
 Print Assumptions C09_autoreset_refines.
+Print Assumptions C09_dualport_refines.
+Print Assumptions C09_dualport_read_before_any_write.
+Print Assumptions C09_dualport_b_wins.
 Print Assumptions C09_stack_spec_push_pop.
 Print Assumptions C09_stack_spec_push_full.
 Print Assumptions C09_stack_spec_is_ideal.
